@@ -94,7 +94,7 @@ Definition mstate0 : mstate := {| st_fs := []; st_cache := [] |}.
 
 Inductive event :=
 | Write (p : string) (c : content)      (* the file at p now holds c *)
-| Load (q : request).                   (* a model calls load_cropped_and_aligned_image(**q) *)
+| Load (q : request).                   (* a model calls load_cropped_and_aligned_image with arguments q *)
 
 Section Memo.
 Variable fitf : content -> request -> option mat.     (* None = raises *)
